@@ -3,7 +3,7 @@ import refs_cases
 
 ID = "C05"
 PROPERTIES_FILE = "Properties/C05.v"
-COQ_TARGETS = ["Properties/C05.vo", "Refs/Cases.vo", "Refs/RefProofs.vo", "Refs/RefStep.vo", "Refs/LifeProofs.vo", "Refs/LifeStep.vo", "Refs/ErrPaths.vo", "Refs/Disconnect.vo", "Refs/Ordered.vo", "Refs/FenceProofs.vo"]
+COQ_TARGETS = ["Properties/C05.vo", "Refs/Cases.vo", "Refs/RefProofs.vo", "Refs/RefStep.vo", "Refs/LifeProofs.vo", "Refs/LifeStep.vo", "Refs/ErrPaths.vo", "Refs/Disconnect.vo", "Refs/Ordered.vo", "Refs/Ranked.vo", "Refs/RankedFs.vo", "Refs/FenceProofs.vo"]
 LEVEL = "proof"
 TECHNIQUE = ("Coq theorems (all backends, all states) over a hand-written sequential Gallina model of fidRef reference counting, the DecRef "
              "cascade, the fid tables and connState.stop; model tied to the code by a differential against the real Server.Handle driven "
@@ -82,21 +82,24 @@ def run(ctx):
         if nm <= 5:
             ctx.note("model/implementation disagree on history #%d (first difference: %s)" % (idx, d))
         ctx.broken.append({"kind": "correspondence", "what": "Refs/Model.v disagrees with the implementation on a history", "first_difference": d, "case": slim(o)})
+        if nm <= 2:
+            # the history is a concrete failing input of the correspondence obligation: reported with a replay, not as "no failing input found"
+            ctx.violation("%s:model" % ID, "the implementation leaves the model the %s theorems are about on this history (first difference: %s)" % (ID, d), slim(o))
     kinds, nsteps, ncalls = summarize(obs)
-    distinct = len({str(o["steps"]) + str(o["inject"]) for o in obs})
+    distinct = refs_cases.count_distinct_nontrivial(obs, ID)
     ctx.coverage.update({
         "evaluations": len(obs),
         "distinct_nontrivial": distinct,
         "rule": RULE,
         "correspondence": {"cases": len(obs), "mismatches": nm, "requests": nsteps, "backend_calls": ncalls, "by_request_kind": kinds,
                            "with_injected_failure": sum(1 for o in obs if o["inject"]), "complete_disconnect": sum(1 for o in obs if o.get("complete")), "gated_scenarios": sum(1 for o in obs if o.get("gated"))},
-        "samples": [slim(obs[0]), slim(obs[len(obs) // 2])],
+        "samples": refs_cases.pick_samples(obs, ID, slim),
     })
 
 
 RULE = ("fixed corpus (xattr fids, failing multi-step walks, fid replacement, create-rebinding, attach paths, two connections) with a failure "
         "injected at EVERY backend call index; short sessions cut after every byte of every frame; random histories plain / with injected "
-        "EIO, ENOENT, wrong-QID-count / cut at a random byte / left connected; distinct = distinct (steps, injection) records")
+        "EIO, ENOENT, wrong-QID-count / cut at a random byte / left connected; distinct_nontrivial = distinct (steps, injection) records with >= 3 requests in which at least one File was closed, plus the gated scenarios; samples = the injected-failure history with the most backend calls, the complete history with the most successful rename/unlink requests, one gated scenario")
 
 
 def slim(o):
